@@ -183,6 +183,7 @@ Json plan_to_json(const Plan &p) {
   j.set("seed", (long long)p.seed);
   j.set("run", p.run);
   if (!p.variant.empty()) j.set("variant", p.variant);
+  if (!p.binary.empty()) j.set("binary", p.binary);
   Json w = Json::Obj();
   static const char *pol[] = {"inplace", "move", "coin"};
   w.set("mem_policy", pol[p.world.mem_policy % 3]);
@@ -248,6 +249,7 @@ bool plan_from_json(const Json &j, Plan &p, std::string *err) {
   p.seed = (uint64_t)j.num("seed");
   p.run = (long)j.num("run");
   p.variant = j.str("variant");
+  p.binary = j.str("binary");
   if (const Json *w = j.get("world")) {
     std::string pol = w->str("mem_policy", "inplace");
     p.world.mem_policy = pol == "move" ? 1 : pol == "coin" ? 2 : 0;
@@ -301,6 +303,7 @@ uint64_t plan_hash(const Plan &p) {
   q.expect = Json();
   q.seed = 0;
   q.run = 0;
+  q.binary.clear();
   // uids key environment coins only; two plans that differ in uids alone are the same case
   for (auto &t : q.tasks)
     for (auto &op : t.ops) op.uid = 0;
